@@ -52,6 +52,12 @@ CATALOGUE = [
     dict(modules=[dict(interval=16, slow=40, dopoll=[(1, 'ok')], reads={'a': [(1, 'ok')]}),
                   dict(interval=8, slow=24, dopoll=[(1, 'ok')], reads={'a': [(1, 'ok')]}, readable=True)],
          env=[(20, 'interval', 0, 2), (60, 'interval', 0, 32), (100, 'interval', 1, 1)], horizon=260),
+    # very different slow intervals on one thread, the long one last (and first)
+    dict(modules=[dict(interval=4, slow=4, dopoll=[(0, 'ok')], reads={'a': [(0, 'ok')], 'b': [(1, 'ok')]}),
+                  dict(interval=8, slow=80, dopoll=[(1, 'ok')], reads={'a': [(0, 'ok')]})], horizon=260),
+    dict(modules=[dict(interval=8, slow=80, dopoll=[(1, 'ok')], reads={'a': [(0, 'ok')]}),
+                  dict(interval=4, slow=4, dopoll=[(0, 'ok')], reads={'a': [(0, 'ok')]}, readable=True),
+                  dict(interval=2, slow=8, dopoll=[(0, 'ok')], reads={'b': [(1, 'ok')]})], horizon=260),
     # a pollinterval change while fast polling is on is ignored until fast polling is switched off
     dict(modules=[dict(interval=8, slow=24, dopoll=[(1, 'ok')], reads={'a': [(1, 'ok')]}, readable=True)],
          env=[(20, 'fast', 0, (True, 1)), (40, 'interval', 0, 16), (80, 'fast', 0, (False, 0)), (150, 'interval', 0, 2)], horizon=200),
